@@ -86,7 +86,7 @@ def filt(c, n, pre, post):
     return filt(c, n - 1, pre, post) + unit(c[n - 1])
 
 
-@REG.spec([SeqS, SeqS, SeqS, Bool], SeqS)
+@REG.spec([SeqS, SeqS, SeqS, Bool], SeqS, opaque=True)
 def view(c, pre, post, flag):
     """the argument list a lazy CompilerArgs (container, pre, post, needs_override_check) denotes"""
     if flag:
